@@ -151,3 +151,98 @@ Definition items_from_lines (fields : list field) (lines : list str) : option (l
                   | Some l, Some ls => Some (l :: ls)
                   | _, _ => None end
      end) (lines_to_records fields 1 lines).
+
+(* ---- items from delimited lines: a header line names the columns ---- *)
+Definition I_ID : str := [105;45;105;100]%N.
+Definition I_INPUT : str := [105;45;105;110;112;117;116]%N.
+Definition I_LENGTH : str := [105;45;108;101;110;103;116;104]%N.
+
+(* the split function _make_split builds: tsdb.split for the delimiter @ (empty
+   columns read as None, escapes undone), str.split(delimiter) otherwise *)
+Definition split_cols (delim : N) (line : str) : option (list raw) :=
+  if N.eqb delim 64 then split_raw line
+  else Some (map Some (split_on delim (rstrip1 10 line))).
+
+Definition raw_eqb' (a b : raw) : bool :=
+  match a, b with None, None => true | Some x, Some y => str_eqb x y | _, _ => false end.
+
+(* dict(zip(colnames, colvals)).get(name): the last column of that name wins *)
+Fixpoint col_lookup (name : str) (names vals : list raw) : option raw :=
+  match names, vals with
+  | n :: names', v :: vals' =>
+      match col_lookup name names' vals' with
+      | Some r => Some r
+      | None => if raw_eqb' n (Some name) then Some v else None
+      end
+  | _, _ => None
+  end.
+
+Definition has_field (name : str) (fields : list field) : bool :=
+  existsb (fun f => str_eqb (f_name f) name) fields.
+
+(* the values of one data line under the item fields: None = CommandError (wrong number of
+   columns) or an exception of the split function *)
+Definition delim_record (delim : N) (fields : list field) (names : list raw) (i : Z) (line : str)
+  : option (list value * option raw) :=            (* the record and the i-id it was given, if any *)
+  match split_cols delim line with
+  | None => None
+  | Some vals =>
+      if negb (Nat.eqb (length vals) (length names)) then None
+      else
+        let given_id := col_lookup I_ID names vals in
+        Some (map (fun f =>
+                     match col_lookup (f_name f) names vals with
+                     | Some (Some s) => VStr s
+                     | Some None => VNone
+                     | None =>
+                         if str_eqb (f_name f) I_ID then VInt i
+                         else if str_eqb (f_name f) I_LENGTH then
+                           match col_lookup I_INPUT names vals with
+                           | Some v => VInt (word_count (match v with Some s => s | None => [] end))
+                           | None => VNone
+                           end
+                         else VNone
+                     end) fields,
+              if has_field I_ID fields then given_id else None)
+  end.
+
+Fixpoint delim_records (delim : N) (fields : list field) (names : list raw) (i : Z) (seen : list raw)
+         (lines : list str) : option (list (list value)) :=
+  match lines with
+  | [] => Some []
+  | l :: ls =>
+      match delim_record delim fields names i l with
+      | None => None
+      | Some (rec, gid) =>
+          match gid with
+          | Some id =>
+              if existsb (raw_eqb' id) seen then None             (* duplicate i-id *)
+              else option_map (cons rec) (delim_records delim fields names (i + 1) (id :: seen) ls)
+          | None => option_map (cons rec) (delim_records delim fields names (i + 1) seen ls)
+          end
+      end
+  end.
+
+(* the item relation written from a text whose first line is the header; None = an exception
+   (no header line, wrong number of columns, duplicate identifiers, malformed escapes) *)
+Definition items_from_delimited (delim : N) (fields : list field) (lines : list str) : option (list str) :=
+  match lines with
+  | [] => None                                                    (* next() on an empty input *)
+  | header :: data =>
+      match split_cols delim header with
+      | None => None
+      | Some names =>
+          match delim_records delim fields names 1 [] data with
+          | None => None
+          | Some recs =>
+              (fix go (recs : list (list value)) : option (list str) :=
+                 match recs with
+                 | [] => Some []
+                 | r :: rs => match join_typed r fields, go rs with
+                              | Some l, Some ls => Some (l :: ls)
+                              | _, _ => None end
+                 end) recs
+          end
+      end
+  end.
+
